@@ -22,7 +22,7 @@ RULE = ('cases are one key shape (primary + 0-3 subkeys, 1-2 identities with the
         'subkey\'s capability; distinct = distinct (capability layout, operation, form, enforcement) tuples')
 TIERS = {'quick': {'runs': 4000, 'budget_s': 80}, 'thorough': {'runs': 200000, 'budget_s': 1500}}
 PROBES = ('subkey_used', 'primary_used', 'nobody_allowed_enforced', 'nobody_allowed_not_enforced', 'rebinding_changed_capability',
-          'recertify_changed_capability', 'same_second_rebinding', 'form_public', 'form_locked', 'form_unlocked', 'form_unprotected',
+          'recertify_changed_capability', 'same_second_rebinding', 'form_public', 'form_locked', 'form_unlocked', 'form_unprotected', 'form_copy',
           'no_identity_key', 'user_selected_identity', 'two_capable_subkeys', 'decrypt_by_subkey', 'encrypt_on_private_refused',
           'decrypt_stored_message', 'decrypt_stored_after_capability_lost')
 SIGN_ALGS = ['ed25519', 'ed25519', 'p256', 'p384']
@@ -54,7 +54,7 @@ def generate(rng, tier):
             steps.append({'id': sid, 'op': 'tick', 'delta_us': rng.choice([0, 0, 500_000, 1_000_000, 86400_000_000])})
         else:
             steps.append({'id': sid, 'op': rng.choice(['sign', 'sign', 'certify', 'encrypt', 'encrypt', 'decrypt']),
-                          'form': rng.choice(['unprotected', 'unprotected', 'unlocked', 'locked', 'public']),
+                          'form': rng.choice(['unprotected', 'unprotected', 'unlocked', 'locked', 'public', 'copy']),
                           'user': rng.randrange(len(uids)) if rng.random() < 0.35 else None,
                           'enforce': rng.random() < 0.75, 'stored': rng.randrange(8) if rng.random() < 0.6 else None})
     return {'config': {'primary': palg, 'uids': uids, 'subs': subs, 'no_identity': rng.random() < 0.06,
@@ -185,6 +185,8 @@ def execute(case, ctx):
             obj = protected_copy
         elif form == 'public':
             obj = pgpy.PGPKey.from_blob(bytes(key.pubkey))[0]
+        elif form == 'copy':
+            obj = copy.copy(key)
         else:
             obj = key
         _operate(pgpy, ctx, m, cfg, key, obj, form, passphrase, step, shapes)
@@ -273,7 +275,7 @@ def _operate(pgpy, ctx, m, cfg, key, obj, form, passphrase, step, shapes):
         if op in ('encrypt', 'decrypt'):
             allowed = _allowed(m, cfg, 'ET', user)
             allowed = [a for a in allowed if comps[a].alg in (rkeys.ECDH, rkeys.RSA_ES)]
-            if op == 'decrypt' and form in ('unprotected', 'unlocked') and step.get('stored') is not None and getattr(m, 'mailbox', None):
+            if op == 'decrypt' and form in ('unprotected', 'unlocked', 'copy') and step.get('stored') is not None and getattr(m, 'mailbox', None):
                 # a message encrypted earlier in the history, to whichever component was allowed then: the flags may have
                 # changed since, the addressed component is still the one that opens it
                 sbytes, sused = m.mailbox[step['stored'] % len(m.mailbox)]
